@@ -21,6 +21,19 @@ pub enum SinkOut {
     Channel(Vec<(i64, usize)>, bool),
 }
 
+/// How the elements stamped by a probe leave its block (for the routing oracle of C03).
+#[derive(Clone, Debug, PartialEq, Eq)]
+pub enum RouteKind {
+    Forward,
+    Shuffle,
+    /// group-by connection on `v.rem_euclid(k)`
+    Group(i64),
+    /// `repartition_by` on `v.rem_euclid(k)`
+    Repart(i64),
+    Broadcast,
+    Route(Vec<u8>),
+}
+
 pub type SinkCollector = Box<dyn FnOnce() -> SinkOut + Send>;
 
 #[derive(Clone, Debug, Default)]
@@ -44,6 +57,8 @@ pub struct Builder<'a> {
     pub probe_info: Vec<(u32, String, usize)>,
     /// (consumer probe, producer probe, stage) for stages that pass elements through unchanged
     pub edges: Vec<(u32, u32, &'static str)>,
+    /// (producer probe, how its elements are routed out of the block)
+    pub routes: Vec<(u32, RouteKind)>,
     cur_tap: u32,
     states: Vec<IterationStateHandle<LoopState>>,
 }
@@ -75,6 +90,7 @@ impl<'a> Builder<'a> {
             sinks: Vec::new(),
             probe_info: Vec::new(),
             edges: Vec::new(),
+            routes: Vec::new(),
             cur_tap: 0,
             states: Vec::new(),
         }
@@ -142,6 +158,28 @@ impl<'a> Builder<'a> {
     pub fn stages(&mut self, mut s: DStream<Rec>, stages: &[Stage]) -> DStream<Rec> {
         for st in stages {
             let prod = self.cur_tap;
+            match st {
+                Stage::Shuffle => self.routes.push((prod, RouteKind::Shuffle)),
+                Stage::Broadcast => self.routes.push((prod, RouteKind::Broadcast)),
+                Stage::Replicate(_) | Stage::Fork { .. } | Stage::Diamond { .. } => {
+                    self.routes.push((prod, RouteKind::Forward))
+                }
+                Stage::GlobalAgg { form: GlobalForm::Fold, .. } => self.routes.push((prod, RouteKind::Forward)),
+                Stage::Repartition(_, k) => self.routes.push((prod, RouteKind::Repart((*k).max(1)))),
+                Stage::KeyedMap(k, _) | Stage::CountWindow { k, .. } => {
+                    self.routes.push((prod, RouteKind::Group((*k).max(1))))
+                }
+                Stage::KeyedAgg { form, k, .. }
+                    if matches!(
+                        form,
+                        KeyedForm::GroupByThenFold | KeyedForm::GroupByThenReduce | KeyedForm::KeyedRichMap
+                    ) =>
+                {
+                    self.routes.push((prod, RouteKind::Group((*k).max(1))))
+                }
+                Stage::Route { preds, .. } => self.routes.push((prod, RouteKind::Route(preds.clone()))),
+                _ => {}
+            }
             s = self.stage(s, st);
             if matches!(
                 st,
@@ -167,6 +205,13 @@ impl<'a> Builder<'a> {
     }
 
     pub fn sink(&mut self, s: DStream<Rec>, kind: SinkKind) {
+        match kind {
+            SinkKind::CollectVec | SinkKind::Collect | SinkKind::CollectChannel => {
+                self.routes.push((self.cur_tap, RouteKind::Forward))
+            }
+            SinkKind::CollectVecAll => self.routes.push((self.cur_tap, RouteKind::Broadcast)),
+            _ => {}
+        }
         fn norm(v: Vec<Rec>) -> Vec<(i64, usize)> {
             v.iter().map(|r| r.obs()).collect()
         }
@@ -216,6 +261,21 @@ impl<'a> Builder<'a> {
             }
         };
         self.sinks.push(c);
+    }
+
+    fn route_of_comb(&mut self, tap: u32, comb: &Combine, left: bool) {
+        let kind = match comb {
+            Combine::Merge | Combine::Zip => RouteKind::Forward,
+            Combine::Join(_, JoinAlgo::BcHash | JoinAlgo::BcSortMerge, _) => {
+                if left {
+                    RouteKind::Forward
+                } else {
+                    RouteKind::Broadcast
+                }
+            }
+            Combine::Join(_, _, k) => RouteKind::Group((*k).max(1)),
+        };
+        self.routes.push((tap, kind));
     }
 
     fn combine(&mut self, l: DStream<Rec>, r: DStream<Rec>, comb: &Combine) -> DStream<Rec> {
@@ -439,15 +499,27 @@ impl<'a> Builder<'a> {
                 let l = erase(parts.pop().unwrap());
                 let input_tap = self.cur_tap;
                 let l = self.stages(l, left);
+                let lt = self.cur_tap;
                 self.cur_tap = input_tap;
                 let r = self.stages(r, right);
+                let rt = self.cur_tap;
+                if !left.is_empty() {
+                    self.route_of_comb(lt, comb, true);
+                }
+                if !right.is_empty() {
+                    self.route_of_comb(rt, comb, false);
+                }
                 self.combine(l, r, comb)
             }
             Stage::With { other, comb } => {
                 // the other pipeline starts from the environment, i.e. outside of any loop
+                let lt = self.cur_tap;
                 let saved = std::mem::take(&mut self.states);
                 let o = self.pipe(other);
                 self.states = saved;
+                let rt = self.cur_tap;
+                self.route_of_comb(lt, comb, true);
+                self.route_of_comb(rt, comb, false);
                 self.combine(s, o, comb)
             }
             Stage::Route { preds, branches } => {
@@ -517,6 +589,8 @@ impl<'a> Builder<'a> {
                     cond,
                 );
                 let st = erase(state_stream.map(|st: LoopState| rec_of(mix_pair(Some(st.round as i64), Some(st.acc)))));
+                // the state stream carries no probe: no routing claim for its sink
+                self.cur_tap = u32::MAX;
                 self.sink(st, SinkKind::CollectVec);
                 erase(out)
             }
